@@ -48,6 +48,14 @@ func runC14(c *core.Ctx) {
 	c14Atomic(c, pkg)
 	c14ProbeRules(c, pkg)
 	c14Rules4(c, pkg)
+	// Open pages through the stored tasks by 100 with DoListFunc: the paging arithmetic is a necessary condition of "every enabled
+	// task is started" (seed C14-15-r5)
+	if st := c.P.Pkg("services/storage"); st != nil {
+		c.Rule("C14.paging", "A1 (= C15.dolist): DoListFunc skips non-matching entries before counting; the counter, incremented once per matching entry, is compared with the offset so that the entry whose count equals the offset belongs to the previous page; an entry beyond the offset is appended, one before it is not — pages neither overlap nor leave out the last entry (Open starts the enabled tasks page by page)")
+		c.As("C15.dolist", "C14.paging", func() { c15DoList(c, st) })
+	} else {
+		c.Undecided("C14.paging", "anchor:services/storage", token.NoPos, "package not loaded")
+	}
 	c14Delete(c, pkg)
 	n := ruleTxErr(c, "C14.txerr", pkg, map[string]string{})
 	c.Floor("C14.txerr", "transaction-method error sites", n, 15)
